@@ -17,6 +17,7 @@ type Profile struct {
 	SameRows   bool // concentrate work on few rows / slots (reuse after abort)
 	Checkpoint int  // percentage of transactions followed by a forced checkpoint
 	Reopen     int  // percentage of transactions followed by a restart (crash or clean) inside the history
+	Bulk       int  // percentage of statements that touch many pages at once (8-24 long rows inserted / 8-24 rows enlarged), so that one open transaction dirties more pages than the pool holds
 }
 
 var T1 = dbh.TableDef{Name: "t", Cols: []dbh.Col{{Name: "id", T: "i", Idx: dbh.IdxSkip}, {Name: "v", T: "s", Idx: dbh.IdxNone}, {Name: "n", T: "i", Idx: dbh.IdxSkip}}}
@@ -26,6 +27,7 @@ type genState struct {
 	nextID  int32
 	nextVal int32
 	live    map[string][]int32 // table -> committed live ids
+	bulk    int
 }
 
 func (g *genState) val() int32 { g.nextVal++; return g.nextVal }
@@ -55,6 +57,28 @@ func (g *genState) genStmt(t *rapid.T, def *dbh.TableDef, ids *[]int32) dbh.Stmt
 		kind = 0
 	}
 	idc := def.Cols[0].Name
+	if g.bulk > 0 && rapid.IntRange(0, 99).Draw(t, "bulkdie") < g.bulk {
+		n := rapid.IntRange(8, 24).Draw(t, "bulkn")
+		if hasV && len(*ids) >= 5 && rapid.Bool().Draw(t, "bulkupd") {
+			// enlarge up to n rows in one statement: relocations allocate new pages while earlier pages of the statement are still dirty
+			a := pick(t, *ids, "ba")
+			return dbh.Stmt{Kind: "update", Table: def.Name, Set: []dbh.SetItem{{Col: "v", V: dbh.StrV(fmt.Sprintf("w%d-", g.val()) + strings.Repeat("y", rapid.SampledFrom([]int{300, 700, 1100}).Draw(t, "bulklen")))}},
+				Where: dbh.And(dbh.Leaf(idc, ">=", dbh.IntV(a)), dbh.Leaf(idc, "<=", dbh.IntV(a+int32(n))))}
+		}
+		s := dbh.Stmt{Kind: "insert", Table: def.Name, Cols: names}
+		l := rapid.SampledFrom([]int{300, 700, 1100}).Draw(t, "bulklen")
+		for i := 0; i < n; i++ {
+			g.nextID++
+			r := dbh.Row{dbh.IntV(g.nextID)}
+			if hasV {
+				r = append(r, dbh.StrV(fmt.Sprintf("w%d-", g.val())+strings.Repeat("z", l)))
+			}
+			r = append(r, dbh.IntV(g.val()))
+			s.Rows = append(s.Rows, r)
+			*ids = append(*ids, g.nextID)
+		}
+		return s
+	}
 	switch {
 	case kind <= 3: // insert 1-3 rows
 		n := rapid.IntRange(1, 3).Draw(t, "nrows")
@@ -113,7 +137,7 @@ func GenHistory(t *rapid.T, p Profile) *History {
 	h.Tear = rapid.IntRange(0, 3).Draw(t, "tear") == 0
 	h.Growth = rapid.IntRange(0, 2).Draw(t, "growth") == 0
 	h.MaxCrashPoints = 60
-	g := &genState{live: map[string][]int32{}}
+	g := &genState{live: map[string][]int32{}, bulk: p.Bulk}
 	nsetup := rapid.SampledFrom([]int{0, 2, 5, 12, 30}).Draw(t, "nsetup")
 	if p.SameRows && nsetup > 5 {
 		nsetup = 5
